@@ -30,7 +30,7 @@ def main():
     suffix = sys.argv[1]
     print("| seed | summary (seeder's words, shortened) | first evaluation | now |")
     print("|------|--------------------------------------|------------------|-----|")
-    for d in sorted(glob.glob(os.path.join(VERIF, "seeded", "*-%s[abcd]" % suffix))):
+    for d in sorted(glob.glob(os.path.join(VERIF, "seeded", "*-%s[a-f]" % suffix))):
         if not os.path.exists(os.path.join(d, "meta.json")):
             continue
         m = json.load(open(os.path.join(d, "meta.json")))
